@@ -78,7 +78,7 @@ package jerr
 //@   tag C02
 //@   requires f != nil && i <= len(f.content)
 //@   modifies nothing
-//@   ensures ret != nil && ret.Msg == msg && ret.file == f && ret.index == i && len(ret.includeTrace) == 0 && ret.wrapped == nil
+//@   ensures fresh(ret) && ret.Msg == msg && ret.file == f && ret.index == i && len(ret.includeTrace) == 0 && ret.wrapped == nil
 
 //@ func (*JApiError).OccurredInFile
 //@   tag C02
